@@ -110,6 +110,8 @@ class Runner(object):
         self.secs = []  # (section output, section IO or None)
         self.nops = 0
         try:
+            if isinstance(built, Exception):
+                raise built
             self.stream, self.factory, parent = built or build(
                 ansi, case.get("how", "forced" if ansi else "plainfmt"), case.get("via", "output"))
             for p in case["pre"]:  # what is on the terminal before the first section is created
@@ -185,10 +187,13 @@ def run_pair(case):
         from clikit.api.io import Input, IO, Output
         from clikit.io.input_stream import StringInputStream
 
-        sa, _, oa = build(ca["ansi"], ca.get("how", "forced" if ca["ansi"] else "plainfmt"), "output")
-        sb, _, ob = build(cb["ansi"], cb.get("how", "forced" if cb["ansi"] else "plainfmt"), "output")
-        io = IO(Input(StringInputStream("")), oa, ob)
-        built = [(sa, io.output.section, oa), (sb, io.error_output.section, ob)]
+        try:
+            sa, _, oa = build(ca["ansi"], ca.get("how", "forced" if ca["ansi"] else "plainfmt"), "output")
+            sb, _, ob = build(cb["ansi"], cb.get("how", "forced" if cb["ansi"] else "plainfmt"), "output")
+            io = IO(Input(StringInputStream("")), oa, ob)
+            built = [(sa, io.output.section, oa), (sb, io.error_output.section, ob)]
+        except Exception as e:  # noqa: observed by both traces
+            built = [e, e]
     rs = [Runner(ca, built[0]), Runner(cb, built[1])]
     pos = [0, 0]
     for who in case["order"]:
